@@ -63,13 +63,49 @@ SPECS["C09"] = dict(
          "from New(n), n in {0,1,2,3,4,8,16,64,1023,1024,4095,4096,4097,5000}; content, counters and flags are compared with the model after every step; "
          "non-trivial = the sequence made the buffer wrap (Peek returned a tail), grow, or become exactly full; distinct = distinct operation history",
     assumptions=BUF_ASSUME,
-    overlay=["verifx/c09", "verifx/vio"],
+    overlay=["verifx/c09", "verifx/vio", "verifx/ringm"],
     jobs=[
         dict(name="c09", pkg="./verifx/c09", tests=[
             dict(id="machine", run="^TestC09Machine$", quick=dict(shards=10, checks=12000, timeout=240, steps=40),
                  thorough=dict(shards=16, checks=60000, timeout=1500, steps=60, shrinktime=120)),
             dict(id="small", run="^TestC09Small$", quick=dict(shards=6, checks=15000, timeout=240, steps=40),
                  thorough=dict(shards=8, checks=60000, timeout=1500, steps=60, shrinktime=120)),
+        ]),
+    ],
+)
+
+SPECS["C11"] = dict(
+    level="exploration",
+    technique="stateful property-based testing (rapid state machine) of linkedlist.Buffer against a list-of-segments reference model with scripted readers/writers",
+    rule="a case is a generated operation sequence over PushBack/PushFront/Append/Pop/Read/Peek/PeekWithBytes/Discard/ReadFrom/WriteTo/Reset "
+         "(segment sizes biased to 0,1,3,511-513,1000,4097; read sizes biased to segment boundaries); content (Peek of everything), Buffered, Len and IsEmpty are compared "
+         "with the model after every step, pushed slices are overwritten after the call (copy semantics); non-trivial = a Read/Discard/WriteTo ended inside a segment; "
+         "distinct = distinct operation history",
+    assumptions=BUF_ASSUME + ["Len counts one segment per push and one per reader call that returned bytes (segment boundaries are observable through Pop)"],
+    overlay=["verifx/c11", "verifx/vio"],
+    jobs=[
+        dict(name="c11", pkg="./verifx/c11", tests=[
+            dict(id="machine", run="^TestC11Machine$", quick=dict(shards=12, checks=12000, timeout=240, steps=40),
+                 thorough=dict(shards=16, checks=120000, timeout=1500, steps=60, shrinktime=120)),
+        ]),
+    ],
+)
+
+SPECS["C10"] = dict(
+    level="exploration",
+    technique="stateful property-based testing (rapid state machines) of elastic.RingBuffer and elastic.Buffer against a byte-slice reference model with scripted readers/writers",
+    rule="a case is a generated operation sequence: for the lazy ring wrapper the C09 alphabet plus Done; for the mixed buffer Write/Writev (0..3000 segments, empty ones included)/"
+         "ReadFrom/Read/Peek/Discard/WriteTo/Reset/Release with maxStaticBytes in {1,64,1023,1024,1025,4096,65536} and sizes biased to the limit and the ring capacity; "
+         "content (Peek of everything), Buffered and IsEmpty are compared with the model after every step; non-trivial = the ring-to-list switch-over happened "
+         "(a whole Peek returned more than the two ring segments) or a partial Peek ended in the list part, resp. the ring wrapped/grew/was exactly full; distinct = distinct history",
+    assumptions=BUF_ASSUME,
+    overlay=["verifx/c10", "verifx/vio", "verifx/ringm"],
+    jobs=[
+        dict(name="c10", pkg="./verifx/c10", tests=[
+            dict(id="mixed", run="^TestC10Mixed$", quick=dict(shards=10, checks=6000, timeout=300, steps=40),
+                 thorough=dict(shards=16, checks=60000, timeout=1800, steps=60, shrinktime=120)),
+            dict(id="lazyring", run="^TestC10LazyRing$", quick=dict(shards=6, checks=8000, timeout=300, steps=40),
+                 thorough=dict(shards=8, checks=60000, timeout=1800, steps=60, shrinktime=120)),
         ]),
     ],
 )
